@@ -1180,4 +1180,11 @@ theorem C34_mutual_exclusion (calls : Nat → Op) (es : List Monitor.Ev) (c : Mo
   rw [invOf_mode] at this
   cases this
 
+/-- non-vacuity of the hypotheses of C34_linearizable: a Push can run alone to completion -/
+example : ∃ c, Monitor.Steps (fun i => invOf ((fun _ => Op.push 1 5) i)) (Monitor.Cfg.init State.init)
+    [.acq 0, .step 0, .rel 0] c ∧ (∀ j, c.fl j = none) := by
+  obtain ⟨c, h1, h2, _⟩ := Monitor.solo_one (fun i => invOf ((fun _ => Op.push 1 5) i)) 0 _ rfl
+    (by rw [invOf_mode]; simp) State.init
+  exact ⟨c, h1, h2⟩
+
 end Gossamer.C34
